@@ -124,6 +124,15 @@ theorem same_key_iff_equivalent (s1 h1 p1 q1 s2 h2 p2 q2 : Str) (w1 : WFUrl s1 h
 theorem key_is_rfc_normal_form (s h p q : Str) (hs : s = (str% "http") ∨ s = (str% "https")) :
     makeURLKeyOf s h p q [] = Spec.urlNorm s h p q := key_eq_spec s h p q hs
 
+/-- a query that is present and empty ("/p?", url.URL.ForceQuery) is part of the key: the key is the
+    normal form `Spec.urlNormQ`, and "/p?" never shares a key with "/p" (RFC 3986 §6.2.3: they cannot be
+    assumed equivalent; the pinned keyer dropped the "?") -/
+theorem key_with_forced_query_is_rfc_normal_form (s h p q : Str) (fq : Bool) (hs : s = (str% "http") ∨ s = (str% "https")) :
+    makeURLKeyQ s h p q [] fq = Spec.urlNormQ s h p q fq := keyQ_eq_spec s h p q fq hs
+
+theorem empty_query_is_not_no_query (s h p : Str) :
+    makeURLKeyQ s h p [] [] true ≠ makeURLKeyQ s h p [] [] false := forced_query_distinct s h p
+
 /-- the hypotheses are satisfiable by hosts of both RFC 3986 shapes (non-vacuity), and the two
     defects of the pinned tree are excluded by the theorem, not only by examples -/
 example : WFUrl (str% "https") (str% "[::1]:8443") (str% "/a%2fb/") (str% "x=%e9") where
